@@ -8,11 +8,12 @@ import ThriftVerif.Gen.Std
   * generator/golang/templates/struct.go — `HandleUnknownFields` (default branch of the Read switch),
     `Write` emitting `_unknownFields` after the known fields, `CarryingUnknownFields`.
 
-  The protocol `read` pulls from is apache thrift 0.13 `TBinaryProtocol` over a `TMemoryBuffer`. Its
-  state is modelled explicitly (`St`): the unread input plus the protocol's 64-byte scratch buffer —
-  because `read` DROPS the error of every scalar `iprot.ReadX` (the named result `err` is assigned and
-  then `return offset, nil` is reached), so the garbage value apache returns next to an error is
-  re-encoded into the buffer and is observable. The model follows the code, quirk included.
+  The protocol `read` pulls from is apache thrift 0.13 `TBinaryProtocol` over a `TMemoryBuffer`; its
+  state is `St`: the unread input plus the protocol's 64-byte scratch buffer. Until the fix
+  "unknown.read returns the error of a scalar read" `read` DROPPED the error of every scalar
+  `iprot.ReadX`, so the garbage apache returns next to an error (taken from that scratch buffer) was
+  re-encoded into `Fields` and observable; now every read error is returned before anything is stored and
+  the scratch buffer no longer shows in any result (it is kept in `St` only as inert state).
 -/
 namespace Gen.Unknown
 open Wire Gen
@@ -44,24 +45,6 @@ def rFix (n : Nat) (st : St) : Nat × St × Bool :=
   let scr := st.inp.take k ++ st.scr.drop k
   (unbe (scr.take n), { inp := st.inp.drop k, scr := scr }, decide (st.inp.length < n))
 
-def readLimit : Nat := 32768
-
-/-- `readStringBody(n)` when fewer than `n` bytes are left: the bytes returned next to the error.
-`n ≤ 64`: the scratch buffer (partially overwritten); `n < readLimit`: a fresh zeroed buffer;
-otherwise chunks of `readLimit` bytes through one reused chunk buffer. -/
-def strTrunc (n : Nat) (avail scr : Bytes) : Bytes × Bytes :=
-  if n ≤ 64 then
-    let scr' := avail ++ scr.drop avail.length
-    (scr'.take n, scr')
-  else if n < readLimit then (avail ++ zeros (n - avail.length), scr)
-  else
-    let c := avail.length / readLimit
-    let rem := avail.length % readLimit
-    let left := n - c * readLimit
-    let blen := if c = 0 then readLimit else (if left < readLimit then left else readLimit)
-    let prev := if c = 0 then zeros readLimit else (avail.drop ((c - 1) * readLimit)).take readLimit
-    (avail ++ (prev.take blen).drop rem, scr)
-
 /-- `ReadString` -/
 def rStr (st : St) : Bytes × St × Bool :=
   match rFix 4 st with
@@ -71,9 +54,7 @@ def rStr (st : St) : Bytes × St × Bool :=
     else if n ≤ st1.inp.length then
       (st1.inp.take n, { inp := st1.inp.drop n,
                          scr := if n ≤ 64 then st1.inp.take n ++ st1.scr.drop n else st1.scr }, false)
-    else
-      match strTrunc n st1.inp st1.scr with
-      | (v, scr') => (v, { inp := [], scr := scr' }, true)
+    else ([], { inp := [], scr := st1.scr }, true)    -- short read: the transport is drained, error
 
 /-- `ReadListBegin` / `ReadSetBegin`: element type byte, size; any error is reported -/
 def rListBegin (st : St) : Nat × Nat × St × Bool :=
@@ -144,17 +125,17 @@ def fieldsWith (d : Nat → St → Bytes → R) : Nat → St → Bytes → R
         | ⟨st3, out3, false⟩ => fieldsWith d g st3 out3
 
 /-- `read(buf, offset, iprot, name, fieldType, id, maxDepth)`; first argument = `maxDepth`.
-Scalar cases: the protocol's error is DROPPED and whatever value came back is written. -/
+Scalar cases: `if err != nil { return offset, err }` before the value is stored. -/
 def rd : Nat → Nat → St → Bytes → R
   | 0, _, st, out => ⟨st, out, true⟩                       -- ErrExceedDepthLimit
   | f+1, t, st, out =>
-    if t = 2 then match rByte st with | (b, st', _) => ⟨st', out ++ [if b = 1 then 1 else 0], false⟩
-    else if t = 3 then match rByte st with | (b, st', _) => ⟨st', out ++ be 1 b, false⟩
-    else if t = 4 then match rFix 8 st with | (v, st', _) => ⟨st', out ++ be 8 v, false⟩
-    else if t = 6 then match rFix 2 st with | (v, st', _) => ⟨st', out ++ be 2 v, false⟩
-    else if t = 8 then match rFix 4 st with | (v, st', _) => ⟨st', out ++ be 4 v, false⟩
-    else if t = 10 then match rFix 8 st with | (v, st', _) => ⟨st', out ++ be 8 v, false⟩
-    else if t = 11 then match rStr st with | (v, st', _) => ⟨st', out ++ be 4 v.length ++ v, false⟩
+    if t = 2 then match rByte st with | (b, st', e) => if e then ⟨st', out, true⟩ else ⟨st', out ++ [if b = 1 then 1 else 0], false⟩
+    else if t = 3 then match rByte st with | (b, st', e) => if e then ⟨st', out, true⟩ else ⟨st', out ++ be 1 b, false⟩
+    else if t = 4 then match rFix 8 st with | (v, st', e) => if e then ⟨st', out, true⟩ else ⟨st', out ++ be 8 v, false⟩
+    else if t = 6 then match rFix 2 st with | (v, st', e) => if e then ⟨st', out, true⟩ else ⟨st', out ++ be 2 v, false⟩
+    else if t = 8 then match rFix 4 st with | (v, st', e) => if e then ⟨st', out, true⟩ else ⟨st', out ++ be 4 v, false⟩
+    else if t = 10 then match rFix 8 st with | (v, st', e) => if e then ⟨st', out, true⟩ else ⟨st', out ++ be 8 v, false⟩
+    else if t = 11 then match rStr st with | (v, st', e) => if e then ⟨st', out, true⟩ else ⟨st', out ++ be 4 v.length ++ v, false⟩
     else if t = 14 ∨ t = 15 then
       match rListBegin st with
       | (et, n, st', e) =>
@@ -300,8 +281,7 @@ def write (fs : Fields) : Option Bytes :=
 /-- the `for { ReadFieldBegin … }` loop of StructLikeRead under `keep_unknown_fields`: a copy of
 `Gen.Std.readFieldsWith` with the `_unknownFields` accumulator; an id that is not a `case` of the switch
 goes to `Append`, a known id with another wire type is still skipped. (`Append` runs on a fresh
-protocol state here: stale scratch bytes can only show in a buffer when a read error was dropped, and
-after every such error except a negative string size the transport is empty, so the enclosing Read fails.) -/
+protocol state here: the scratch buffer shows in no result.) -/
 def readFieldsKU (rdTy : Ty → Bytes → Option (GoVal × Bytes)) (defs : List FieldDef) :
     Nat → Bytes → List GoVal → List Bool → Fields → Option (List GoVal × Bytes × Fields)
   | 0, _, _, _, _ => none
@@ -376,6 +356,12 @@ def readTyKU (S : List StructDef) : Nat → Ty → Bytes → Option (GoVal × By
 def readKU (P : Prog) (sidx : Nat) (bs : Bytes) : Option GoVal :=
   (readTyKU P.structs (bs.length + 1) (.struct sidx) bs).map (·.1)
 
+/-- `len(p._unknownFields) > 0` of an object given by its element list (buffer = trailing element) -/
+def carryingLast (fs : List GoVal) : Bool :=
+  match fs.getLast? with
+  | some (.bytes acc) => carrying acc
+  | _ => false
+
 mutual
 /-- generated `Write` of a value of type `ty` through the binary protocol, bytes; struct objects may
 carry the trailing `_unknownFields` element. Without it this is `encW <$> Std.toW`. -/
@@ -400,7 +386,10 @@ def toB (P : Prog) : Ty → GoVal → Res Bytes
   | .struct i, .strct fs =>
       match P.struct? i with
       | some sd =>
-          if sd.kind = 1 && Std.countSet sd.fields fs != 1 then .err else do
+          -- `c != 1 && !(c == 0 && len(p._unknownFields) > 0)` (the second conjunct only under keep_unknown_fields,
+          -- where alone an object has a buffer)
+          if sd.kind = 1 && Std.countSet sd.fields fs != 1 &&
+             !(Std.countSet sd.fields fs == 0 && carryingLast fs) then .err else do
           let b ← toBFields P sd.fields fs
           .ok (b ++ [0])
       | none => .err
@@ -436,9 +425,7 @@ def writeKU (P : Prog) (sidx : Nat) (obj : GoVal) : Res Bytes := toB P (.struct 
 
 /-- `CarryingUnknownFields()` of a struct object -/
 def carryingObj : GoVal → Bool
-  | .strct fs => match fs.getLast? with
-    | some (.bytes acc) => carrying acc
-    | _ => false
+  | .strct fs => carryingLast fs
   | _ => false
 
 mutual
